@@ -1,6 +1,6 @@
 (* C05 - override, bump and reset semantics follow the precedence order.
    Model: Model/Bump.v (bump/*.rs) + Model/Cli.v (argument resolution, context overrides, zerv_draft). *)
-From ZV Require Import Str Dec Zerv Bump Cli BumpProofs CtxFrame PepRoundTrip IndexOps.
+From ZV Require Import Str Dec Zerv Bump Cli BumpProofs CtxFrame PepRoundTrip IndexOps PipeIdentity.
 
 (* the engine IS a single pass over the precedence order, override-then-bump per level (by definition of the model;
    stated so that a change of shape is visible) *)
@@ -74,6 +74,10 @@ Proof. exact index_op_rejects_context. Qed.
 Theorem c05_index_op_out_of_range : forall sec ix ov bv z, nth_error (get_part (z_schema z) sec) ix = None -> process_component sec ix ov bv z = None.
 Proof. exact index_op_out_of_range. Qed.
 
+(* with no override, no bump and no index operation at all, processing changes nothing: neither a variable nor the schema *)
+Theorem c05_no_operation_no_change : forall z, apply_component_processing no_ops z = Some z.
+Proof. exact processing_no_ops. Qed.
+
 Print Assumptions c05_is_level_fold.
 Print Assumptions c05_reset_frame.
 Print Assumptions c05_no_higher_level_changes.
@@ -84,3 +88,4 @@ Print Assumptions c05_context_untouched.
 Print Assumptions c05_index_op_is_by_name.
 Print Assumptions c05_index_op_rejects_context.
 Print Assumptions c05_index_op_out_of_range.
+Print Assumptions c05_no_operation_no_change.
